@@ -39,6 +39,11 @@ func runC16(r *rt.Run, tier string) {
 	role := c16Roles[t.Draw(3, "c16.role")]
 	signerIdx := t.Weighted([]int{3, 3, 1}, "c16.signer")
 	signer := pgpKeys[signerIdx]
+	if t.Bool(1, 5, "c16.binlines") {
+		// deb(5) allows further lines in debian-binary; the signature covers the whole member
+		p.BinMember.Data = []byte("2.0\nfuture-line\n")
+		r.Probe("debian-binary-with-further-lines")
+	}
 	signed := append(append(append([]byte{}, p.BinMember.Data...), p.CtlMember.Data...), p.DataMember.Data...)
 	sig := detachSign(signer, signed)
 	sigM := &arMember{Name: "_gpg" + role, RawName: "_gpg" + role, Timestamp: 1_600_000_000, Mode: "100644", Data: sig}
@@ -62,6 +67,7 @@ func runC16(r *rt.Run, tier string) {
 	fault := "none"
 	mustFail := signerIdx == 2
 	either := false // corruption of the signature member itself: only soundness is demanded
+	var eioMember *arMember
 	if signerIdx == 2 {
 		fault = "outsider-signature"
 	}
@@ -74,9 +80,14 @@ func runC16(r *rt.Run, tier string) {
 		}
 		decoyNames := []string{"control.tar", "control.tar.gz", "control.tar.zst", "data.tar", "data.tar.gz", "control.sig", "control.md5", "control.", "data.img", "data.cpio.gz"}
 		nDecoy := len(decoyNames) * 2
-		total := nBytes + nDecoy + 2 + 2
+		const nAppend, nEIO = 3, 2
+		total := nBytes + nDecoy + 2 + 2 + nAppend + nEIO
 		fp := faultIndex(r, total, func() int {
-			switch t.Weighted([]int{5, 3, 1, 1}, "fault.kind") {
+			switch t.Weighted([]int{5, 3, 1, 1, 1, 1}, "fault.kind") {
+			case 4:
+				return nBytes + nDecoy + 4 + t.Draw(nAppend, "fault.append")
+			case 5:
+				return nBytes + nDecoy + 4 + nAppend + t.Draw(nEIO, "fault.eio")
 			case 0:
 				// bias: signature member and the small debian-binary get as much attention as the big ones
 				m := t.Draw(4, "fault.member")
@@ -186,10 +197,29 @@ func runC16(r *rt.Run, tier string) {
 			askRole = others[fp-nBytes-nDecoy]
 			fault = "role-not-present"
 			r.Fault("request.wrong-role")
-		default:
+		case fp < nBytes+nDecoy+4:
 			krKind = 2 + (fp - nBytes - nDecoy - 2)
 			fault = []string{"keyring-without-signer", "empty-keyring"}[krKind-2]
 			r.Fault("request." + fault)
+		case fp < nBytes+nDecoy+4+nAppend:
+			// bytes appended to a signed member after signing
+			m := []*arMember{p.BinMember, p.CtlMember, p.DataMember}[fp-nBytes-nDecoy-4]
+			for i, x := range ms {
+				if x == m {
+					cp := *m
+					cp.Data = append(append([]byte{}, m.Data...), []byte("appended\n")...)
+					ms[i] = &cp
+				}
+			}
+			fault = "bytes-appended/" + map[*arMember]string{p.BinMember: "debian-binary", p.CtlMember: "control", p.DataMember: "data"}[m]
+			r.Fault("stored.bytes-appended")
+		default:
+			// a failing disk range inside the control or the data member: loading may
+			// fail, but whatever is accepted must still be the signed content
+			m := []*arMember{p.CtlMember, p.DataMember}[fp-nBytes-nDecoy-4-nAppend]
+			eioMember = m
+			mustFail, either = false, true
+			fault = "disk-eio/" + map[*arMember]string{p.CtlMember: "control", p.DataMember: "data"}[m]
 		}
 	} else {
 		r.Stats["config.faultfree"]++
@@ -276,10 +306,29 @@ func runC16(r *rt.Run, tier string) {
 			d.Close()
 		}
 	}
+	eioLo, eioHi := -1, -1
+	if eioMember != nil {
+		// locate the member in the final image
+		ims := cloneMembers(ms)
+		renderAr(ims)
+		for i, x := range ms {
+			if x == eioMember && len(x.Data) > 0 {
+				eioLo = ims[i].DataOff + t.Draw(len(x.Data), "fault.eiooff")
+				eioHi = eioLo + 1 + t.Draw(64, "fault.eiolen")
+			}
+		}
+	}
 	newDisk := func() *simdisk.Disk {
 		disk := simdisk.New(r, "deb", img)
 		disk.DrawProfile()
 		disk.MaxCalls = 4*len(img) + 8000
+		if eioLo >= 0 {
+			if t.Bool(1, 2, "fault.eiotransient") {
+				disk.FailOnceAtCall(1 + t.Draw(40, "fault.eiocall"))
+			} else {
+				disk.FailRange(eioLo, eioHi)
+			}
+		}
 		return disk
 	}
 	attempts := make([]c16Attempt, nloads)
@@ -321,13 +370,18 @@ func runC16(r *rt.Run, tier string) {
 			if a.ctlDiff != "" {
 				r.Violate("C16/verified-but-control-differs", key, "verification succeeded but the loaded control data is not the signed control data: %s", a.ctlDiff)
 			}
-			if a.listErr != nil {
+			if a.listErr != nil && eioLo >= 0 {
+				// an injected disk error surfaced while the payload was read: fine
+			} else if a.listErr != nil {
 				r.Violate("C16/verified-but-payload-unreadable", key+map[bool]string{true: "/verify-first", false: "/list-first"}[verifyFirst], "verification succeeded but the data tar then fails to read: %v", a.listErr)
 			} else if a.dataDiffS != "" {
 				r.Violate("C16/verified-but-payload-differs", key+map[bool]string{true: "/verify-first", false: "/list-first"}[verifyFirst], "verification succeeded but the exposed payload is not the signed payload: %s", a.dataDiffS)
 			}
 		}
 		for _, s := range a.seq {
+			if eioLo >= 0 && strings.HasPrefix(s, "second CheckDebsig") {
+				continue // the repeated check may hit the injected disk error
+			}
 			r.Violate("C16/answer-depends-on-earlier-check", strings.SplitN(s, ":", 2)[0], "%s", s)
 		}
 		if mustFail && ok {
@@ -355,5 +409,5 @@ func init() {
 		},
 		Assumptions: []string{"x/crypto/openpgp both makes and verifies the signatures: a bug common to both directions is invisible", "test keys are committed fixtures (key generation is not reproducible in Go); signing with a fixed signature time is byte-deterministic"},
 	})
-	propProbes["C16"] = []string{"loads-interleaved", "repeated-checks-on-one-package", "verification-succeeded", "payload-read-after-verification", "decoy-with-identical-name"}
+	propProbes["C16"] = []string{"debian-binary-with-further-lines", "loads-interleaved", "repeated-checks-on-one-package", "verification-succeeded", "payload-read-after-verification", "decoy-with-identical-name"}
 }
